@@ -159,11 +159,14 @@ func runC06(c *run.Ctx) {
 		// every single invocation fails in turn
 		for k, cl := range clean.Calls {
 			var faults []model.Fault
-			all := []model.Fault{{Kind: "error"}, {Kind: "group", N: 2 + k%2}, {Kind: "gerror"}, {Kind: "sentinel"}, {Kind: "wgroup", N: 2 + k%2}, {Kind: "ngroup", N: 1 + k%3}}
+			all := []model.Fault{{Kind: "error"}, {Kind: "group", N: 2 + k%2}, {Kind: "gerror"}, {Kind: "sentinel"}, {Kind: "wgroup", N: 2 + k%2}, {Kind: "ngroup", N: 1 + k%3}, {Kind: "plainresolve"}}
 			if c.Thorough() {
 				faults = all
 			} else {
 				faults = []model.Fault{all[(i+k)%5]}
+				if (i+k)%4 == 1 {
+					faults = append(faults, all[6])
+				}
 				if (i+k)%3 == 0 {
 					faults = append(faults, all[5])
 				}
